@@ -1,8 +1,10 @@
 #!/bin/bash
 # usage: confirm_mutant.sh Cxx A|B [patchfile]   -- confirms, in the scratch worktree /tmp/wt/Cxx moved to /repo's HEAD,
 # that the demo passes without the patch, fails with it, and that the 39 lib tests pass with it.
-P=$1; X=$2; PATCH=${3:-/tmp/wt/$P/_out/$X/patch.diff}
-WT=/tmp/wt/$P
+P=$1; X=$2
+WTROOT=${WTROOT:-/tmp/wt2}
+PATCH=${3:-$WTROOT/$P/_out/$X/patch.diff}
+WT=$WTROOT/$P
 cd $WT || exit 2
 export CARGO_NET_OFFLINE=true
 git checkout -q -- src 2>/dev/null
